@@ -80,22 +80,43 @@ T = {
     "fastq": ("FastQBuffer", "SequenceEntryWithQuality", ".fq", [("name", "id"), ("sequence", "seq"), ("quality", "qual")]),
     # a delimited buffer with a column-name header line (get_bufferclass_for_datatype(..., has_header=True))
     "csvh": ("csvh", "ChromosomeSize", ".tsv", c02.FORMATS["sizes"]["cols"]),
+    # the same with a bool and a List[bool] column (a dataclass defined here)
+    "csvb": ("csvb", None, ".tsv", [("name", "str"), ("n", "sint"), ("ok", "bool"), ("bits", "blist")]),
+    "fasta2": ("TwoLineFastaBuffer", "SequenceEntry", ".fa", [("name", "id"), ("sequence", "seq")]),
+    # genotype strings per sample (List[str]); the writer inserts the FORMAT column "GT"
+    "vcf2": ("VCFBuffer2", "VCFEntryWithGenotypes", ".vcf", c02.VCF_FIXED + [("info", "str"), ("genotype", "slist")]),
 }
-HAS_HEADER = {"vcf", "vcfs", "csvh"}
-CSVH_HEADER = "name\tsize\n"          # the column names of the table, TAB separated
+HAS_HEADER = {"vcf", "vcfs", "vcf2", "csvh", "csvb"}
+CSV_HEADERS = {"csvh": "name\tsize\n", "csvb": "name\tn\tok\tbits\n"}   # the column names of the table, TAB separated
+CSVH_HEADER = CSV_HEADERS["csvh"]
+N_SAMPLES = 2
 
-_CSVH = None
+_CSVH = {}
+
+
+def _csvb_class():
+    if "dc" not in _CSVH:
+        from typing import List
+        from bionumpy.bnpdataclass import bnpdataclass
+
+        @bnpdataclass
+        class NameFlags:
+            name: str
+            n: int
+            ok: bool
+            bits: List[bool]
+        _CSVH["dc"] = NameFlags
+    return _CSVH["dc"]
 
 
 def _bt(name):
-    global _CSVH
-    if name != "csvh":
+    if name not in ("csvh", "csvb"):
         return c02._buffer_type(name)
-    if _CSVH is None:
+    if name not in _CSVH:
         from bionumpy.io.delimited_buffers import get_bufferclass_for_datatype
         from bionumpy.datatypes import ChromosomeSize
-        _CSVH = get_bufferclass_for_datatype(ChromosomeSize, delimiter="\t", has_header=True)
-    return _CSVH
+        _CSVH[name] = get_bufferclass_for_datatype(ChromosomeSize if name == "csvh" else _csvb_class(), delimiter="\t", has_header=True)
+    return _CSVH[name]
 MODES = ["plain", "gzip", "stream", "stream_gzip", "append", "append_gzip", "append_stream", "append_stream_gzip",
          "append0", "append0_gzip", "append0_empty"]
 FIRST_MODES = ("append", "append_gzip", "append_stream", "append_stream_gzip")   # modes that use case["first"]
@@ -214,6 +235,12 @@ def g_value(rng, kind, fmt):
         return "f:" + (rng.uniform(-1, 1) * 10 ** rng.randrange(-20, 20)).hex()
     if kind == "strand":
         return rng.choice("+-.")
+    if kind == "bool":
+        return rng.random() < 0.5
+    if kind == "blist":
+        return [rng.random() < 0.5 for _ in range(rng.choice([1, 1, 2, 3, 8]))]
+    if kind == "slist":
+        return [rng.choice("012.") + rng.choice("|/") + rng.choice("012.") for _ in range(N_SAMPLES)]
     if kind == "ilist":
         return [int(c02.g_uint(rng, rng.choice([1, 1, 2, 3, 9]))) for _ in range(rng.choice([1, 1, 2, 3, 5]))]
     if kind == "seq":
@@ -233,7 +260,7 @@ def g_row(rng, fmt):
             row.append([rng.randrange(0, 94) for _ in row[-1]])
         else:
             row.append(g_value(rng, kind, fmt))
-    if fmt in ("vcf", "vcfs"):
+    if fmt in ("vcf", "vcfs", "vcf2"):
         row[1] = max(0, row[1])
     return row
 
@@ -274,14 +301,26 @@ def cases(tier, rng):
             n = rng.choice([0, 1, 2, 3, 5, 8] + ([20] if big else []))
             rows = [g_row(rng, fmt) for _ in range(n)]
             cuts = sorted(rng.sample(range(0, n + 1), min(n + 1, rng.choice([0, 0, 1, 2, 3]))))
-            yield {"op": "write", "fmt": fmt, "rows": rows, "cuts": cuts, "mode": rng.choice(MODES),
-                   "first": rng.randrange(1, len(cuts) + 2)}
+            case = {"op": "write", "fmt": fmt, "rows": rows, "cuts": cuts, "mode": rng.choice(MODES),
+                    "first": rng.randrange(1, len(cuts) + 2)}
+            enc = []
+            kinds = [k for _, k in T[fmt][3]]
+            if "seq" in kinds and rows and rng.random() < 0.35:       # sequence column held in a DNA encoding
+                j = kinds.index("seq")
+                for r in rows:
+                    r[j] = "".join(rng.choice("ACGT") for _ in r[j])
+                enc.append("dna")
+            if T[fmt][3][0][0] == "chromosome" and rows and rng.random() < 0.25:   # chromosome column held as string codes
+                enc.append("strenc")
+            if enc:
+                case["enc"] = enc
+            yield case
     # 2b. lazily read, row-indexed pieces written back
     yield from rewrite_cases(tier, rng)
     yield from replace_cases(tier, rng)
     yield from again_cases(tier, rng)
     # 2c. header-bearing formats with zero rows in total: the header must still be there exactly once
-    for fmt in ("vcf", "vcfs", "csvh"):
+    for fmt in ("vcf", "vcfs", "vcf2", "csvh", "csvb"):
         for cuts in ([], [0], [0, 0], [0, 0, 0]):
             for mode in MODES:
                 for first in (range(1, len(cuts) + 2) if mode in FIRST_MODES else [1]):
@@ -384,16 +423,29 @@ def _pieces(c):
 
 # ------------------------------------------------------------------ real code
 
-def _table(fmt, rows):
+def _table(fmt, rows, enc=()):
     import numpy as np
     import bionumpy.datatypes as dt
     from npstructures import RaggedArray
-    cls = getattr(dt, T[fmt][1])
+    cls = getattr(dt, T[fmt][1]) if T[fmt][1] else _csvb_class()
     if not rows:
         return cls.empty()
     cols = []
     for j, (name, kind) in enumerate(T[fmt][3]):
         v = [r[j] for r in rows]
+        if kind == "seq" and "dna" in enc:
+            import bionumpy as bnp
+            v = bnp.as_encoded_array(v, bnp.DNAEncoding)            # the writer has to decode the column
+        if j == 0 and "strenc" in enc:
+            import bionumpy as bnp
+            from bionumpy.encodings.string_encodings import StringEncoding
+            v = bnp.as_encoded_array(v, StringEncoding(sorted(set(v))))
+        if kind == "bool":
+            v = np.array(v, dtype=bool)
+        elif kind == "blist":
+            v = RaggedArray([np.array(x, dtype=bool) for x in v])
+        elif kind == "slist":
+            v = np.array(v)
         if kind == "float":
             v = np.array([float.fromhex(x[2:]) for x in v], dtype=float)
         elif kind in ("int", "sint", "oint"):
@@ -531,7 +583,7 @@ def impl(c):
     if os.path.exists(p):
         os.remove(p)
     try:
-        tables = [_table(fmt, rows) for rows in _pieces(c)]
+        tables = [_table(fmt, rows, c.get("enc", ())) for rows in _pieces(c)]
         import bionumpy.datatypes as dt
         if mode == "append0_empty":
             open(p, "wb").close()                  # an existing, empty target
@@ -541,7 +593,7 @@ def impl(c):
             i += cnt
             with bnp.open(p, om, buffer_type=BT) as f:
                 if stream:
-                    f.write(NpDataclassStream(iter(part), dataclass=getattr(dt, T[fmt][1])))
+                    f.write(NpDataclassStream(iter(part), dataclass=getattr(dt, T[fmt][1]) if T[fmt][1] else _csvb_class()))
                 else:
                     for t in part:
                         f.write(t)
@@ -561,6 +613,7 @@ def impl(c):
                 r.close()
             import dataclasses
             out["read"] = {"n": int(len(d)), "cols": [c02._canon_col(getattr(d, f.name)) for f in dataclasses.fields(d)]}
+            out["count"] = int(bnp.count_entries(p, buffer_type=BT))        # the number of records, by the counting reader
     except Exception as e:
         out["read"] = {"err": "read:" + type(e).__name__}
     return out
@@ -572,7 +625,13 @@ def _cell_text(kind, v, fmt, j):
     if kind in ("id", "str", "strand", "seq"):
         return v
     if kind in ("int", "sint", "oint"):
-        return str(v + 1) if (fmt in ("vcf", "vcfs") and j == 1) else str(v)
+        return str(v + 1) if (fmt in ("vcf", "vcfs", "vcf2") and j == 1) else str(v)
+    if kind == "bool":
+        return "1" if v else "0"
+    if kind == "blist":
+        return "".join("1" if x else "0" for x in v)
+    if kind == "slist":
+        return "GT\t" + "\t".join(v)
     if kind == "float":
         return repr(float.fromhex(v[2:]))
     if kind == "ilist":
@@ -607,6 +666,8 @@ def ref_body(fmt, rows):
         if fmt == "fasta":
             s = cells[1]
             out.append(">" + cells[0] + "\n" + "".join(s[i:i + 80] + "\n" for i in range(0, len(s), 80)))
+        elif fmt == "fasta2":
+            out.append(">" + cells[0] + "\n" + cells[1] + "\n")
         elif fmt == "fastq":
             out.append("@" + cells[0] + "\n" + cells[1] + "\n+\n" + cells[2] + "\n")
         elif fmt == "gfa":
@@ -649,15 +710,17 @@ def _expected_read(c):
             pass
         if kind == "strand":
             v = list(v)
+        if kind == "blist":
+            v = [[int(x) for x in r] for r in v]
         cols.append(v)
     return {"n": len(rows), "cols": cols}
 
 
 def _split_header(text, fmt=None):
-    if fmt == "csvh":
+    if fmt in CSV_HEADERS:
         k = 0
-        while text.startswith(CSVH_HEADER, k):
-            k += len(CSVH_HEADER)
+        while text.startswith(CSV_HEADERS[fmt], k):
+            k += len(CSV_HEADERS[fmt])
         return text[:k], text[k:]
     i = 0
     lines = text.split("\n")
@@ -719,7 +782,7 @@ def agree(c, got, exp):
             fmt = c["fmt"]
             if fmt in HAS_HEADER:
                 head, rest = _split_header(text, fmt)
-                n_hdr = len(re.findall(r"(^|\n)#CHROM\t", head)) if fmt != "csvh" else len(head) // len(CSVH_HEADER)
+                n_hdr = len(re.findall(r"(^|\n)#CHROM\t", head)) if fmt not in CSV_HEADERS else len(head) // len(CSV_HEADERS[fmt])
                 if n_hdr != 1 or rest != body:
                     return False
             elif text != body:
@@ -735,10 +798,10 @@ def agree(c, got, exp):
     text = got["bytes"]
     if fmt in HAS_HEADER:
         head, body = _split_header(text, fmt)
-        n_hdr = len(re.findall(r"(^|\n)#CHROM\t", head)) if fmt != "csvh" else len(head) // len(CSVH_HEADER)
+        n_hdr = len(re.findall(r"(^|\n)#CHROM\t", head)) if fmt not in CSV_HEADERS else len(head) // len(CSV_HEADERS[fmt])
         if n_hdr != exp["headers"] or (exp["headers"] == 0 and head):
             return False
-        if fmt != "csvh" and any(l.startswith("#") for l in body.split("\n")):
+        if fmt not in CSV_HEADERS and any(l.startswith("#") for l in body.split("\n")):
             return False
     else:
         body = text
@@ -746,6 +809,8 @@ def agree(c, got, exp):
         return False
     if not c["rows"]:
         return True
+    if got.get("count") != len(c["rows"]):
+        return False
     return c02._same(got.get("read"), c02._conv(_expected_read(c)))
 
 
@@ -771,11 +836,21 @@ def model_request(c):
                 row.append({"l": v})
             elif k == "qual":
                 row.append({"q": v})
+            elif k == "bool":
+                row.append({"i": 1 if v else 0})
+            elif k == "blist":
+                row.append({"t": "".join("1" if x else "0" for x in v)})
+            elif k == "slist":                       # the FORMAT column and one text column per sample
+                row.append({"t": "GT"})
+                row += [{"t": g} for g in v]
             else:
                 row.append({"t": v})
         rows.append(row)
-    return {"op": "write", "fmt": fmt, "rows": rows, "cuts": c["cuts"],
-            "sessions": [{"m": m, "s": st, "k": k} for m, st, k in sessions(c)]}
+    req = {"op": "write", "fmt": fmt, "rows": rows, "cuts": c["cuts"],
+           "sessions": [{"m": m, "s": st, "k": k} for m, st, k in sessions(c)]}
+    if fmt in CSV_HEADERS:
+        req["hdr"] = CSV_HEADERS[fmt]
+    return req
 
 
 def nontrivial(c):
